@@ -1,12 +1,19 @@
 """C06 - signature verification accepts exactly valid, ordered, in-set signatures."""
-from checks import vaacommon
+from checks import vaacommon, proccommon
 
 
 def run(ctx):
-    ctx.prove(families=("vaa",))
+    ctx.prove(families=("vaa", "processor"))
     vaacommon.run_vaa(ctx, "c06", ("ver",))
     ctx.cov["rule"] = ("guardian lists of length 0..255 (quick: 11 sizes; thorough: every size), with and without repeated addresses; a valid "
                        "ascending signer subset and 20+ single-step corruptions (swap, duplicate, re-index, index 255 / = len, outsider, other member, "
                        "bit flip, bad recovery id, zero signature, body flip, short/empty/longer list, too many signatures, repeated key) through the real "
                        "VerifySignatures; recover oracle = independent crypto.Ecrecover per (digest, signature)")
     ctx.cov["trusted_base"] += ["secp256k1 recovery and Keccak-256 are oracles (go-ethereum), supplied to the model as a finite table per case"]
+    # the call site in the processor (anchor node/pkg/processor/observation.go): an inbound VAA is stored iff verification
+    # against the node's CURRENT guardian list succeeds - clause stored-vaa-not-quorum-verifiable, and the model comparison on every
+    # `inb` line (a valid VAA that is rejected shows up as a diff)
+    rule, dist = ctx.cov["rule"], ctx.cov.get("generator_distribution")
+    proccommon.run_processor(ctx, "C06", "")
+    ctx.cov["rule"] = rule + " | processor call site: " + ctx.cov["rule"][:400]
+    ctx.cov["generator_distribution"] = {"vaa": dist, "processor": ctx.cov.get("generator_distribution")}
